@@ -126,7 +126,19 @@ def files_control(pki, case):
     return c
 
 
+def _timeouts(sc, case):
+    # the server's command time-out must only ever fire where a scenario wants it ('t': the client stays
+    # silent after the 220); everywhere else a client thread that is starved by a loaded machine must not
+    # be mistaken for a dead peer
+    sc.control['timeoutsmtpd'] = b'3\n' if 't' in case.hs else b'60\n'
+    return sc
+
+
 def scenario_for(pki, case):
+    return _timeouts(_scenario_for(pki, case), case)
+
+
+def _scenario_for(pki, case):
     if case.cert == 'files':
         sc = smtpworld.base_scenario(port=case.port or '25', extra_control=files_control(pki, case))
         sc.localip = case.localip or LOCALIP
@@ -360,11 +372,13 @@ class TlsClient:
         self.last_line = b''
         self.stls_sent = False     # a STARTTLS line went out in clear and no handshake was tried since
         self.peer_cn = None
+        self.outq = []
         self.nq = 0
         self.unsolicited = 0
 
     # --- transport
     def _recv(self, timeout):
+        self._flush()
         if self.eof:
             return b''
         r, _, _ = select.select([self.s], [], [], timeout)
@@ -379,10 +393,17 @@ class TlsClient:
         return d
 
     def _send(self, b):
-        try:
-            self.s.sendall(frame(b))
-        except (BrokenPipeError, ConnectionResetError):
-            self.eof = True
+        """queue a frame; frames go out together at the next flush (one send() for everything the
+        scenario sends without waiting, so that the server finds all of it or none of it)"""
+        self.outq.append(frame(b))
+
+    def _flush(self):
+        if self.outq:
+            data, self.outq = b''.join(self.outq), []
+            try:
+                self.s.sendall(data)
+            except (BrokenPipeError, ConnectionResetError):
+                self.eof = True
 
     def _pump(self):
         d = self.outb.read()
@@ -423,7 +444,7 @@ class TlsClient:
             self.obs.append('Q/%s' % open(p, 'rb').read().hex())
             self.nq += 1
 
-    def wait_reply(self, timeout=8.0):
+    def wait_reply(self, timeout=30.0):
         """at least one complete reply (then whatever follows at once)"""
         got = []
         end = time.time() + timeout
@@ -469,7 +490,7 @@ class TlsClient:
                 break
             except ssl.SSLWantReadError:
                 self._pump()
-                d = self._recv(8.0)
+                d = self._recv(30.0)
                 if not d:
                     break
                 self.inb.write(d)
@@ -512,6 +533,7 @@ class TlsClient:
                     break
                 self.obs.append('K/0')
                 if h == 'c':
+                    self._flush()
                     try:
                         self.s.shutdown(socket.SHUT_WR)
                     except OSError:
@@ -530,11 +552,12 @@ class TlsClient:
                 except ssl.SSLError:
                     pass
                 self._pump()
+            self._flush()
             try:
                 self.s.shutdown(socket.SHUT_WR)
             except OSError:
                 pass
-        end = time.time() + 6.0
+        end = time.time() + 30.0
         while not self.eof and time.time() < end:
             d = self._plain(max(0.0, end - time.time()))
             if d is None or d == b'':
@@ -557,7 +580,7 @@ def run_tls_sessions(ctx, binary, pki, cases, keep=False, workers=None):
         sc.items = []
         sc.write(d, standins)
         a, b = socket.socketpair()
-        env = dict(vlib.ENV, H_REALIO='2', H_ALARM='30')
+        env = dict(vlib.ENV, H_REALIO='2', H_ALARM='90')
         p = subprocess.Popen([binary, d], stdin=b.fileno(), stdout=b.fileno(), stderr=subprocess.PIPE, env=env)
         b.close()
         cl = TlsClient(a, pki, case, d)
@@ -571,13 +594,13 @@ def run_tls_sessions(ctx, binary, pki, cases, keep=False, workers=None):
         except OSError:
             pass
         try:
-            stderr = p.communicate(timeout=40)[1].decode(errors='replace')
+            stderr = p.communicate(timeout=100)[1].decode(errors='replace')
             rc = p.returncode
         except subprocess.TimeoutExpired:
             p.kill(); stderr, rc = 'timeout', -14
         res = session.Result(d, rc, stderr)
         out = {'replies': cl.replies, 'obs': cl.obs + [t_obs(t) for t in res.states] + (['F'] if res.fault else []), 'states': res.states, 'exit': res.exit, 'peer_cn': cl.peer_cn,
-               'handoffs': [e.hex() for _, e in res.handoffs], 'fault': res.fault, 'clienterr': err, 'rc': rc}
+               'handoffs': [e.hex() for _, e in res.handoffs], 'msgs': [m for m, _ in res.handoffs], 'fault': res.fault, 'clienterr': err, 'rc': rc}
         if not keep:
             shutil.rmtree(d, ignore_errors=True)
         return out
